@@ -1082,25 +1082,92 @@ func (e *Engine) isClone(fn *ssa.Function) bool {
 	if len(fn.Params) != 1 || len(fn.Blocks) != 1 || fn.Signature.Results().Len() != 1 {
 		return false
 	}
-	ins := fn.Blocks[0].Instrs
-	// t0 = len(b); t1 = make []T t0 t0; t2 = copy(t1, b); return t1
-	if len(ins) != 4 {
+	if _, ok := fn.Params[0].Type().Underlying().(*types.Slice); !ok {
 		return false
 	}
-	l, ok := ins[0].(*ssa.Call)
-	if !ok || !isBuiltin(l, "len") || l.Call.Args[0] != fn.Params[0] {
+	p := fn.Params[0]
+	// a straight-line body that returns a fresh buffer holding exactly the
+	// parameter's elements, in one of the usual spellings:
+	//   d := make([]T, len(p)); copy(d, p); return d
+	//   return append(make([]T, 0, len(p)), p...)      (also []T(nil) / []T{} as the base)
+	//   return slices.Clone(p) / bytes.Clone(p)
+	var mk *ssa.MakeSlice
+	var cp, app *ssa.Call
+	var ret *ssa.Return
+	for _, in := range fn.Blocks[0].Instrs {
+		switch x := in.(type) {
+		case *ssa.DebugRef:
+		case *ssa.MakeSlice:
+			if mk != nil {
+				return false
+			}
+			mk = x
+		case *ssa.Call:
+			switch {
+			case isBuiltin(x, "len"), isBuiltin(x, "cap"):
+				if x.Call.Args[0] != ssa.Value(p) {
+					return false
+				}
+			case isBuiltin(x, "copy"):
+				if cp != nil {
+					return false
+				}
+				cp = x
+			case isBuiltin(x, "append"):
+				if app != nil {
+					return false
+				}
+				app = x
+			default:
+				if cal := x.Call.StaticCallee(); cal != nil && (cal.String() == "bytes.Clone" || strings.HasPrefix(cal.String(), "slices.Clone")) && len(x.Call.Args) == 1 && x.Call.Args[0] == ssa.Value(p) {
+					app = x
+					continue
+				}
+				return false
+			}
+		case *ssa.Return:
+			ret = x
+		case *ssa.Slice, *ssa.Alloc, *ssa.Convert, *ssa.ChangeType:
+			// building an empty base slice / array literal for append
+		default:
+			return false
+		}
+	}
+	if ret == nil || len(ret.Results) != 1 {
 		return false
 	}
-	mk, ok := ins[1].(*ssa.MakeSlice)
-	if !ok || mk.Len != l || mk.Cap != l {
-		return false
+	lenOfP := func(v ssa.Value) bool {
+		c, ok := v.(*ssa.Call)
+		return ok && isBuiltin(c, "len") && c.Call.Args[0] == ssa.Value(p)
 	}
-	cp, ok := ins[2].(*ssa.Call)
-	if !ok || !isBuiltin(cp, "copy") || cp.Call.Args[0] != mk || cp.Call.Args[1] != fn.Params[0] {
-		return false
-	}
-	ret, ok := ins[3].(*ssa.Return)
-	if !ok || len(ret.Results) != 1 || ret.Results[0] != mk {
+	switch {
+	case mk != nil && cp != nil && app == nil:
+		if !lenOfP(mk.Len) || cp.Call.Args[0] != ssa.Value(mk) || cp.Call.Args[1] != ssa.Value(p) || ret.Results[0] != ssa.Value(mk) {
+			return false
+		}
+	case app != nil && cp == nil:
+		if ret.Results[0] != ssa.Value(app) {
+			return false
+		}
+		if isBuiltin(app, "append") {
+			if len(app.Call.Args) != 2 || app.Call.Args[1] != ssa.Value(p) {
+				return false
+			}
+			base := app.Call.Args[0]
+			switch b := base.(type) {
+			case *ssa.MakeSlice:
+				if c, ok := b.Len.(*ssa.Const); !ok || !isZeroConst(c) {
+					return false
+				}
+			case *ssa.Const:
+				if !b.IsNil() {
+					return false
+				}
+			default:
+				return false
+			}
+		}
+	default:
 		return false
 	}
 	e.clones[fn] = 1
